@@ -42,6 +42,12 @@ def c20_lists(tier, seed):
             chosen.append(l[0])
             if len(l) > 1:
                 chosen.append(l[1 + rng.randrange(len(l) - 1)])
+        # value-type classes that the category key does not distinguish (move-only but trivially movable, trivially
+        # destructible but not trivially relocatable) are always part of the quick matrix
+        names = {c['name'] for c in chosen}
+        for c in core_pool:
+            if (c['tags'] & {'handle', 'selfref'}) and c['name'] not in names:
+                chosen.append(c)
         return chosen, by_cat
     return [c for cat in sorted(by_cat) for c in by_cat[cat]], by_cat
 
